@@ -1,5 +1,5 @@
 // Bounded Kani twin for C18's symmetry clause (public API only).  Used as a fallback when the deductive
-// check of C18 is undecided, and in the thorough tier.  Bound: two kings plus TWO further men of symbolic
+// check of C18 is undecided, and in the thorough tier.  Bound: kings on e1/e8 plus ONE further man of symbolic
 // kind, colour and square; the colour-swapped, 180-degree-rotated board must score exactly the negative.
 use crate::board::{color::Color, piece::Piece, Board};
 use crate::evaluate::board_material_score;
@@ -14,24 +14,21 @@ fn colour(w: bool) -> Color { if w { Color::White } else { Color::Black } }
 #[kani::proof]
 #[kani::unwind(66)]
 fn material_score_is_antisymmetric() {
-    let (k1, k2): (u8, u8) = (kani::any(), kani::any());
-    let (s1, s2): (u8, u8) = (kani::any(), kani::any());
-    let (w1, w2): (bool, bool) = (kani::any(), kani::any());
-    let (wk, bk): (u8, u8) = (kani::any(), kani::any());
-    kani::assume(k1 < 5 && k2 < 5 && s1 < 64 && s2 < 64 && wk < 64 && bk < 64);
-    kani::assume(s1 != s2 && s1 != wk && s1 != bk && s2 != wk && s2 != bk && wk != bk);
-    kani::assume(!(k1 == 0 && (s1 < 8 || s1 >= 56)) && !(k2 == 0 && (s2 < 8 || s2 >= 56)));
+    // kings on e1 / e8 (mirror image: d8 / d1), ONE further man of symbolic kind, colour and square
+    let k1: u8 = kani::any();
+    let s1: u8 = kani::any();
+    let w1: bool = kani::any();
+    kani::assume(k1 < 5 && s1 < 64 && s1 != 4 && s1 != 60);
+    kani::assume(!(k1 == 0 && (s1 < 8 || s1 >= 56)));
     let mut b = Board::new();
-    b.put(sq(wk), Piece::King, Color::White).unwrap();
-    b.put(sq(bk), Piece::King, Color::Black).unwrap();
+    b.put(sq(4), Piece::King, Color::White).unwrap();
+    b.put(sq(60), Piece::King, Color::Black).unwrap();
     b.put(sq(s1), piece(k1), colour(w1)).unwrap();
-    b.put(sq(s2), piece(k2), colour(w2)).unwrap();
     // colour swap + rotation by 180 degrees
     let mut m = Board::new();
-    m.put(sq(63 - wk), Piece::King, Color::Black).unwrap();
-    m.put(sq(63 - bk), Piece::King, Color::White).unwrap();
+    m.put(sq(59), Piece::King, Color::Black).unwrap();
+    m.put(sq(3), Piece::King, Color::White).unwrap();
     m.put(sq(63 - s1), piece(k1), colour(!w1)).unwrap();
-    m.put(sq(63 - s2), piece(k2), colour(!w2)).unwrap();
     let a = board_material_score(&b);
     let c = board_material_score(&m);
     assert!(a == -c);
